@@ -233,4 +233,12 @@ MUTANTS2 = [
       [(SUB, "        args = (self.filename, last_token.start[0], last_token.start[1] + 1, last_token.line)\n        args += (last_token.end[0], last_token.end[1] + 1)  # type: ignore\n",
         "        args = (self.filename, last_token.start[0], last_token.start[1] + 1, last_token.line, last_token.end[0], last_token.end[1] + 1)\n")],
       expect="silent", checks=ALLP),
+    M("c03-literal-value-no-valueerror", "C03",
+      [(SUB, "        except ValueError as e:  # e.g. a lone surrogate in a string literal\n            self.raise_syntax_error_known_location(str(e), tok)\n", "")],
+      mention="E8"),
+    M("c11-literal-value-no-relocation", "C11",
+      [(SUB, "        try:\n            return ast.literal_eval(tok.string)\n        except SyntaxError as e:\n            self.raise_syntax_error_known_location(e.msg, tok)\n        except ValueError as e:  # e.g. a lone surrogate in a string literal\n            self.raise_syntax_error_known_location(str(e), tok)\n",
+        "        return ast.literal_eval(tok.string)\n")], mention="Y1-foreign"),
+    M("c03-empty-source-file-branch", "C03",
+      [(TKR, "        if not self._path:\n            lines = self._lines\n", "        if self._lines:\n            lines = self._lines\n")], mention="Z4"),
 ]
